@@ -110,4 +110,5 @@ RULES = [
     ("C08.FIRSTHEART", "redundant hearts are ignored", p_c04.rule_firstheart),
     ("C08.TABLES", "rendering tables are injective and match the parser", p_c04.rule_tables),
     ("C08.LISTING", "`check` listing prints kind, counts and area", rule_listing),
+    ("C08.TREE", "the parser rebuilds the area tree a renderer wrote: per-handler decision tables of the tree construction (shared with C04)", p_c04.rule_tree),
 ]
